@@ -12,6 +12,7 @@ CLASS_HOME = {
     'NewtonSolver': 'openmdao/solvers/nonlinear/newton.py',
     'NonlinearBlockGS': 'openmdao/solvers/nonlinear/nonlinear_block_gs.py',
     'Driver': 'openmdao/core/driver.py',
+    'PhysicalUnit': 'openmdao/utils/units.py',
     'OptionsDictionary': 'openmdao/utils/options_dictionary.py',
     'Autoscaler': 'openmdao/drivers/autoscalers/autoscaler.py',
     'OptimizerVector': 'openmdao/vectors/optimizer_vector.py',
@@ -28,6 +29,7 @@ PROPERTY_MODULES = {
     'C22': ['contracts.c22_conviol'],
     'C27': ['contracts.c27_options'],
     'C13': ['contracts.c13_checks'],
+    'C06': ['contracts.c06_units'],
 }
 
 # modules whose contracts may be used as callee contracts by any property
@@ -56,6 +58,7 @@ PROPERTY_ASSUMPTIONS = {
             'assumed: _iter_get_norm returns NaN or a value >= 0; _single_iteration and _run_apply neither raise nor modify solver control state'],
 }
 GAPS = {
+    'C06': ['_find_unit / simplify_unit / SI prefixes: bounded exhaustive tier only (regex + eval are outside the subset)', 'fractional powers in PhysicalUnit.__pow__', 'has_val_mismatch', 'the numeric content of unit_library.ini'],
     'C13': ['Subjac.set_col family: bounded exhaustive tier only (not proved)', 'directional derivative checks (directional_fd_fwd / directional_fwd_rev branches)', '_MagnitudeData bookkeeping values', 'deriv_display text rendering', 'which arrays check_partials/check_totals pass in as J_fwd/J_rev/J_fd'],
     'C27': ['types=list (element-wise values check)', 'set_function preprocessing', 'declare() default validation and argument checks', 'update()/undeclare()/set()', 'deprecation warning text'],
     'C22': ['Driver._compute_con_viol (linear-first concatenation, exception fallback)', 'OptimizerVector.update_from_model (assumed to deliver model values)', 'multi-constraint vectors: one constraint slice [a,b) of a larger vector is verified, other slices are covered by the frame only'],
@@ -105,3 +108,27 @@ def _c13_extra(tier, seed, native_run):
 
 
 EXTRA_TIERS['C13'] = _c13_extra
+
+
+def _c06_extra(tier, seed, native_run):
+    r = _run_bounded('c06_units_library.py', [tier])
+    out = {'violations': [], 'errors': []}
+    if 'error' in r:
+        out['errors'].append('bounded unit-library tier could not run: ' + r['error'])
+        return out
+    out['bounded_unit_library'] = {
+        'note': 'BOUNDED stand-in (not counted in obligations): parser (_find_unit: regex + eval) and simplify_unit over the whole shipped library',
+        'bound': '%d library units, all ordered pairs, triples per dimension class (capped), depth<=2 composites' % r['units'],
+        'evaluations': r['evaluations'], 'distinct_nontrivial': r['distinct_nontrivial'], 'exhaustive': True,
+        'failures': r['n_failures'], 'samples': r['samples']}
+    for f in r['failures'][:3]:
+        out['violations'].append(dict(f, what='unit library: ' + f['kind'], witness_id='c06-%s' % json_key(f)))
+    return out
+
+
+def json_key(f):
+    import json
+    return json.dumps(f, sort_keys=True, default=str)[:120]
+
+
+EXTRA_TIERS['C06'] = _c06_extra
